@@ -7,6 +7,7 @@ SPEC = {
         {"comp": "sim_c04", "module": "QV.Sys.MonC04", "quick": 60, "thorough": 1500},
     ],
     "assumptions": [
+        "pkt_accept: the hook states are those in which packet rx_packet HAS been received (Dedup non-empty); the state before the first packet of a space (rx_packet = 0 as a sentinel, fix e626ca9) is exercised by the simulator only (corpus/sim_c02/key-update-first-packet.json)",
         "packet protection is an oracle in the key-selection model: a packet opens iff it was sealed under the key the table selects (stub keys in the hook); AEAD itself and header-protection masks are not modelled",
         "the u128 window is modelled as a Z kept below 2^128 by explicit mod; shifts/or/and/leading_zeros are the Z bit operations (Z.shiftl, Z.lor, Z.land, Z.log2), checked against the Rust code by the correspondence on every run",
     ],
